@@ -199,6 +199,21 @@ def generate(seed, tier):
             else:               # fan-out joined by SUM
                 c2 = add(['op', '+', rv, ['n', 2]])
                 add(['f', 'SUM', b, c2])
+    # two books: each reads a volatile cell of the other, so that whichever
+    # is the root of a lazily completed model pulls a volatile cell in
+    if len(world['books']) > 1:
+        for bsrc, bdst in ((0, 1), (1, 0)):
+            vs = [c for c in world['cells'] if c['at'][0] == bsrc and
+                  'f' in c and 'arr' not in c and sites(c['f'])]
+            if not vs:
+                at = free_slot(world, bsrc)
+                world['cells'].append({'at': at, 'f': ['f', vr.pick(
+                    ['NOW', 'RAND'])]})
+                vs = [world['cells'][-1]]
+            v = vr.pick(vs)
+            at = free_slot(world, bdst)
+            world['cells'].append({'at': at, 'f': [
+                'op', '+', ['r'] + v['at'] + v['at'][2:], ['n', 1]]})
     # a defined name holding a volatile formula, with consumer cells
     if sw.chance(.3):
         kind = vr.pick(kinds if 'RANDBETWEEN' not in kinds else
@@ -417,6 +432,30 @@ def execute(trace, env=None):
         # a model grown from a root book holds what the root references
         # (model.cells); blank fillers of cells never read are not observed
         root_loaded = list(model.cells) if s.get('mode') == 'root' else None
+        if root_loaded is not None:
+            # ... and every volatile cell that a loaded cell reads must have
+            # been loaded as the formula it is (not lost, not replaced by a
+            # value stored in the file)
+            from ..expr import refs_of, rect_cells
+            idx_ = Index(world)
+            have = set(root_loaded)
+            for i, c in enumerate(world['cells']):
+                if 'f' not in c or P.rect_id(*cell_rect(c)) not in have:
+                    continue
+                for x in refs_of(c['f']):
+                    if x[0] != 'r':
+                        continue    # (names of lazily loaded books are not
+                        #             completed by finish(): not demanded)
+                    for q in rect_cells(x):
+                        o = idx_.occupant(q)
+                        if o is None:
+                            continue
+                        co = world['cells'][o]
+                        if 'f' in co and sites(co['f']) and \
+                                P.rect_id(*cell_rect(co)) not in have:
+                            fail('C13.load', 'cell %d is loaded but the '
+                                 'volatile cell %d it reads is not a cell of '
+                                 'the model' % (i, o), cell=i)
         exes = {0: Exe('model', model)}
         n_eval = 0
         nontrivial = False
